@@ -8,6 +8,7 @@ import (
 	"os"
 	"path/filepath"
 	"sort"
+	"strings"
 	"sync"
 	"time"
 
@@ -300,6 +301,31 @@ func runC02Injected(rc *Recorder, dir string, rng *rand.Rand, steps int) error {
 	return nil
 }
 
+// snapshotOfOtherGeneration: the level-9 file a restore of TXID t starts from names other WAL salts
+// in its header than the level-0 file of its own MaxTXID (the F9b shape).
+func (w *World) snapshotOfOtherGeneration(t uint64) bool {
+	ents, _ := os.ReadDir(filepath.Join(w.replicaDir, "ltx", "9"))
+	var best uint64
+	var bestName string
+	for _, e := range ents {
+		if _, max, err := ltx.ParseFilename(e.Name()); err == nil && uint64(max) <= t && uint64(max) >= best {
+			best, bestName = uint64(max), e.Name()
+		}
+	}
+	if bestName == "" {
+		return false
+	}
+	snap, err := readL0(filepath.Join(w.replicaDir, "ltx", "9", bestName))
+	if err != nil {
+		return false
+	}
+	l0, err := readL0(filepath.Join(w.replicaDir, "ltx", "0", ltx.FormatFilename(ltx.TXID(best), ltx.TXID(best))))
+	if err != nil {
+		return false
+	}
+	return snap.salt1 != l0.salt1 || snap.salt2 != l0.salt2
+}
+
 // everyTXIDOracle evaluates C02's statement on the replica as it stands.
 func (w *World) everyTXIDOracle(rc *Recorder, logical bool) {
 	if _, err := os.Stat(w.replicaDir); os.IsNotExist(err) {
@@ -378,13 +404,21 @@ func (w *World) everyTXIDOracle(rc *Recorder, logical bool) {
 					ic, _ := os.ReadFile(c)
 					if len(diffPages(ic, ib, w.cfg.PageSize)) == 0 {
 						culprit = "level9-snapshot-content-differs-from-its-position"
+						if w.lsErrs > 0 && w.snapshotOfOtherGeneration(t) {
+							// F9b: a sync/checkpoint call failed after its PRAGMA (SQLITE_BUSY on the sequence
+							// bump under an open write transaction), the position stayed in the old WAL
+							// generation, and the snapshot read the NEW generation up to the stale offset
+							culprit = "level9-snapshot-of-other-wal-generation-after-failed-checkpoint(F9b)"
+						}
 					} else {
 						culprit = "compacted-file-differs-from-l0-chain"
 					}
 				}
 			}
 			os.RemoveAll(no9)
-			if w.concurrentWriter {
+			if strings.Contains(culprit, "(F9b)") {
+				// fully attributed already
+			} else if w.concurrentWriter {
 				// schedule-dependent history with a real concurrent writer: the live form of F9
 				culprit += ":live-concurrent-writer"
 			} else if len(ia) != len(ib) {
